@@ -272,6 +272,42 @@ def _opt_kwargs(kind):
     return kw
 
 
+def _extra_kwargs(toks):
+    """keywords of add_argument that do not decide the option's kind (the model carries them as opaque data)"""
+    import argparse
+    kw = {}
+    for t in toks:
+        if t == "+help=text":
+            kw["help"] = "some help text"
+        elif t == "+help=none":
+            kw["help"] = None
+        elif t == "+help=suppress":
+            kw["help"] = argparse.SUPPRESS
+        elif t == "+help=empty":
+            kw["help"] = ""
+        elif t == "+metavar":
+            kw["metavar"] = "MV"
+        elif t == "+type":
+            kw["type"] = str
+        elif t == "+choices":
+            kw["choices"] = None
+        elif t == "+default=none":
+            kw["default"] = None
+    return kw
+
+
+def _plain_argparse_accepts(kind, strs, extra_toks):
+    """does the same declaration succeed on a plain argparse parser?"""
+    import argparse
+    try:
+        kw = _opt_kwargs(kind)
+        kw.update(_extra_kwargs(extra_toks))
+        argparse.ArgumentParser(prog="x").add_argument(*strs, **kw)
+        return True
+    except Exception:
+        return False
+
+
 def _sw(t):
     return {"_no_log": t[0] == "1", "_no_log_file": t[1] == "1", "_help_if_no_args": t[2] == "1"}
 
@@ -325,12 +361,15 @@ class _Session:
             return " ".join(["deps"] + ["%s:%s" % (enc_str(n), "/".join(enc_str(d) for d in q._dependent_parsers))
                                         for n, q in self.p.command_parsers.items()])
         if op == "opt":
-            target, kind, strs = args[0], args[1], [dec_str(a) for a in args[2:]]
+            target, kind = args[0], args[1]
+            strs = [dec_str(a) for a in args[2:] if not a.startswith("+")]
+            extra = _extra_kwargs([a for a in args[2:] if a.startswith("+")])
             try:
                 obj = self.p if target == "*" else self.p.get_cmd_parser(dec_str(target))
             except (ValueError, AssertionError) as e:
                 return "err " + type(e).__name__
             kw = _opt_kwargs(kind)
+            kw.update(extra)
             try:
                 obj.add_argument(*strs, **kw)
                 return "ok"
@@ -688,9 +727,13 @@ def oracle(case, replies):
         op, *a = line.split()
         if op == "opt" and alive:
             target = None if a[0] == "*" else dec_str(a[0])
-            kind, strs = a[1], [dec_str(x) for x in a[2:]]
+            kind, strs = a[1], [dec_str(x) for x in a[2:] if not x.startswith("+")]
+            extra_toks = [x for x in a[2:] if x.startswith("+")]
             if target is not None and target not in names:
                 continue                               # get_cmd_parser raises; nothing is added
+            if not _plain_argparse_accepts(kind, strs, extra_toks):
+                alive = False                          # argparse itself refuses this declaration: no claim
+                continue
             recv = [n for n in names if target is None or n == target or target in anc[n]]
             conflict = not kind.startswith("pos") and any(
                 s in strs for n in recv for ss, k in has[n] if not k.startswith("pos") for s in ss)
@@ -911,6 +954,19 @@ def _cluster(rng, shorts):
     return [t]
 
 
+def _extras(rng, kind):
+    """keywords the propagation code copies along: help as text / None / SUPPRESS / '' / omitted, metavar, type, …"""
+    if rng.random() < 0.6:
+        return ""
+    out = [rng.choice(["+help=text", "+help=none", "+help=none", "+help=suppress", "+help=empty"])]
+    b = _base(kind)
+    if (b == "value" or kind.startswith("pos")) and rng.random() < 0.5:
+        out.append(rng.choice(["+metavar", "+type", "+choices"]))
+    if b in ("value", "flag") and "=" not in kind.partition("@")[0] and rng.random() < 0.15 and b == "value":
+        out.append("+default=none")
+    return " " + " ".join(out)
+
+
 def _parse_line(argv, twice=False):
     return " ".join(["parse2" if twice else "parse"] + [enc_str(t) for t in argv])
 
@@ -1001,7 +1057,7 @@ def _gen_case(rng, tier, stream):
                 continue
             used |= set(strs)
             placed.append((target, kind, strs))
-            lines.append("opt %s %s %s" % (target, kind, " ".join(enc_str(s) for s in strs)))
+            lines.append("opt %s %s%s %s" % (target, kind, _extras(rng, kind), " ".join(enc_str(s) for s in strs)))
     if stream == "required":
         # required=True options on the ArgParser, on parsers and on internal sets; argv below supplies them or not
         for _ in range(rng.choice([1, 1, 2])):
@@ -1013,7 +1069,7 @@ def _gen_case(rng, tier, stream):
             target = "*" if r < 0.4 else enc_str(rng.choice(internal)) if r < 0.6 and internal else enc_str(rng.choice(names))
             used |= set(strs)
             placed.append((target, kind, strs))
-            lines.append("opt %s %s %s" % (target, kind, " ".join(enc_str(s) for s in strs)))
+            lines.append("opt %s %s%s %s" % (target, kind, _extras(rng, kind), " ".join(enc_str(s) for s in strs)))
     for _ in range(nopt):
         kind, strs = _spec(rng)
         if stream != "conflict" and not kind.startswith("pos"):
@@ -1033,7 +1089,7 @@ def _gen_case(rng, tier, stream):
                 continue
         used |= set(strs)
         placed.append((target, kind, strs))
-        lines.append("opt %s %s %s" % (target, kind, " ".join(enc_str(s) for s in strs)))
+        lines.append("opt %s %s%s %s" % (target, kind, _extras(rng, kind), " ".join(enc_str(s) for s in strs)))
     meta["opts"] = len(placed)
 
     # argv: every (public command, option string) once, with its simplest use
@@ -1067,8 +1123,14 @@ def _gen_case(rng, tier, stream):
         r = rng.random()
         if r < 0.6 and public:
             argv.append(rng.choice(public))
-        elif r < 0.67:
+        elif r < 0.63:
             argv.append(rng.choice(["nosuch", "w"] + NAMES[:12]))
+        elif r < 0.69:
+            # a word derived from a declared name: proper prefix, extension, tail, other case (never a name itself)
+            nm = rng.choice(names)
+            cand = [nm[:k] for k in range(1, len(nm))] * 2 + [nm + "x", nm + "-all", nm[1:], nm.upper(), nm.capitalize()]
+            cand = [c for c in cand if c and c not in names and not c.startswith("-")]
+            argv.append(rng.choice(cand) if cand else "w")
         elif r < 0.75 or stream == "free-positional" and r < 0.9:
             argv.append(rng.choice(HELPISH))
         for _ in range(rng.choice([0, 1, 1, 2, 2, 3, 5])):
@@ -1131,7 +1193,7 @@ def _gen_single(rng, tier):
         used |= set(strs)
         placed.append((kind, strs))
         target = "*" if rng.random() < 0.92 else enc_str("a")
-        lines.append("opt %s %s %s" % (target, kind, " ".join(enc_str(s) for s in strs)))
+        lines.append("opt %s %s%s %s" % (target, kind, _extras(rng, kind), " ".join(enc_str(s) for s in strs)))
     toks_opt = [(kind, s) for kind, strs in placed if not kind.startswith("pos") for s in strs]
     shorts = [(k, s) for k, s in toks_opt if not s.startswith("--")]
     argvs = [[], ["-v"], ["--no-color"], ["--color", "never", "-vv"]]
@@ -1192,6 +1254,14 @@ def corpus():
     out.append(case(["a", "b:a", "c"], [("a", "flag", ["--arg-one"]), ("b", "flag", ["--arg-two"])],
                     [["a", "--arg"], ["b", "--arg"], ["b", "--arg-o"], ["c", "--arg"], ["b", "-h", "--arg"], ["b", "--arg-t"]],
                     kind="corpus-abbrev"))
+    # keywords that the propagation copies along, on owners with dependents (diamond), both declaration routes
+    c = case(["a", "b:a", "c:a", "d:b,c"], [], [["d", "--fa", "--fb", "x", "--gc", "-q"], ["a", "--fa"], ["c", "--gd"]], kind="corpus-keywords")
+    c["lines"][2:2] = ["opt %s flag +help=none %s" % (enc_str("a"), enc_str("--fa")),
+                       "opt %s value +help=suppress +metavar %s" % (enc_str("a"), enc_str("--fb")),
+                       "opt %s flag +help=text %s" % (enc_str("b"), enc_str("--gc")),
+                       "opt * flag +help=none %s" % enc_str("-q"),
+                       "opt %s value +help=empty +type %s" % (enc_str("c"), enc_str("--gd"))]
+    out.append(c)
     # names inside names, first words inside '-h--help', free positionals on the default command
     out.append(case(["log", "log-all:log", "lo", "all:lo"], [("log", "flag", ["--fa"]), ("lo", "flag", ["--fb"]), ("log", "pos*", ["items"])],
                     [["all", "--fa"], ["all", "--fb"], ["log-all", "--fb"], ["log-all", "--fa"], ["-"], ["--"], [""], ["h"], ["help"],
@@ -1401,6 +1471,9 @@ def tags(case, replies):
                 yield "opt:required"
             if l.split()[2].startswith("value="):
                 yield "opt:value-with-default"
+            for x in l.split()[3:]:
+                if x.startswith("+"):
+                    yield "opt:kw:" + x[1:]
         elif l.startswith("parse"):
             first = r.split(" | ")[0]
             yield l.split()[0] + ":" + " ".join(first.split()[:3] if first.startswith("err") else first.split()[:1])
@@ -1441,7 +1514,7 @@ LEVEL_TEXT = ("Kernel-checked, on the Lean model the driver executes, for all de
               "caller's list, about the single-command parser).")
 LEVEL_NOTE = ("default_cmd is `_partial`: the code also keeps a first word that names an internal '!' option set (known finding "
               "c19b; internal_name_gap and default_cmd_internal_name_counterexample state the code's behaviour, "
-              "default_cmd_full_if_public_test the full statement under the two-line repair). argparse's scan of one parser is a "
+              "default_cmd_full_if_public_test the full statement under the two-line repair). keywords of add_argument that do not decide the option's kind (help, metavar, type, choices=None, default=None) are carried as opaque data — neither `declare` nor `addOption` inspects them; argparse's scan of one parser is a "
               "modelled function whose agreement with the real argparse is sampled, not proved; model = Python likewise. "
               "Hypotheses kept in the parse-level theorems: `finishable`, no positional named like the option's attribute, "
               "attribute not color/no_color. Trusted: Lean kernel, translator/adapter/oracle in harness/c19.py, argparse.")
